@@ -30,11 +30,12 @@ the current wait has not been interrupted by a pause request that the stepping t
 def quiet (c : Cfg) : Bool := !isAwaitPaused c.pc && !waitInterrupted c
 
 /-- the class of histories of the partial theorem: ticks, pause and play anywhere; wake-up requests (`resume`, completion of
-an awaited future, its done-callback) only at quiet moments (a pause may be *requested* then, but not in effect);
-no kill / fail / cancel / call_soon -/
+an awaited future, its done-callback, `call_soon` and the run of a scheduled callback that does not raise) only at quiet
+moments (a pause may be *requested* then, but not in effect); no kill / fail / cancel / failing callback -/
 def evAllowed (c : Cfg) : Ev → Bool
   | .tick | .pause | .play => true
   | .resume _ | .complete _ _ | .tickCb (.adone _) => quiet c
+  | .callSoon _ | .tickCb (.usercb false) => quiet c      -- scheduling a callback; running one that does not raise
   | _ => false
 
 def admissible (P : Prog) : Cfg → List Ev → Bool
@@ -1770,6 +1771,27 @@ theorem tickCb_adone_inStep (c d : Cfg) (f : Nat) (h : InStep c d) :
     rw [sh_eq_iff]; simp [*]
   · exact h
 
+theorem InStep.ready {c d : Cfg} (h : InStep c d) (R R' : List Cb) (hR : R = R') :
+    InStep { c with ready := R } { d with ready := R' } := by
+  subst hR
+  refine h.transfer ⟨?_, h.core.st, h.core.ckill, h.core.dint, h.core.dpaused⟩ rfl rfl rfl rfl rfl rfl rfl rfl
+  obtain ⟨g1, g2, g3, g4, g5, g6, g7, g8, g9, g10, g11, g12, g13, g14, g15⟩ := sh_fields h.core.sh
+  rw [sh_eq_iff]; simp [*]
+
+theorem callSoon_inStep (c d : Cfg) (r : Bool) (h : InStep c d) :
+    InStep { c with ready := c.ready ++ [.usercb r] } { d with ready := d.ready ++ [.usercb r] } :=
+  h.ready _ _ (by rw [(sh_fields h.core.sh).2.2.2.2.2.2.2.2.2.1])
+
+theorem tickCb_usercb_inStep (c d : Cfg) (h : InStep c d) :
+    InStep (tickCb c (.usercb false)) (tickCb d (.usercb false)) := by
+  have g10 : c.ready = d.ready := (sh_fields h.core.sh).2.2.2.2.2.2.2.2.2.1
+  unfold tickCb
+  rw [← g10]
+  split
+  · simp only [Bool.false_eq_true, if_false]
+    exact h.ready _ _ (by rw [g10])
+  · exact h
+
 /-! ### whole histories -/
 
 theorem run_append (P : Prog) (c : Cfg) (xs ys : List Ev) : run P c (xs ++ ys) = run P (run P c xs) ys := by
@@ -1838,11 +1860,18 @@ theorem step_sim (P : Prog) (c d : Cfg) (e : Ev) (h : Sim P c d) (hinv : InvP c)
       have hq := quiet_inStep h ha
       exact Or.inl (tickCb_adone_inStep c d f hq)
     | trykill => simp [evAllowed] at ha
-    | usercb r => simp [evAllowed] at ha
+    | usercb r =>
+      cases r with
+      | true => simp [evAllowed] at ha
+      | false =>
+        have hq := quiet_inStep h ha
+        exact Or.inl (tickCb_usercb_inStep c d hq)
   | kill => simp [evAllowed] at ha
   | fail e => simp [evAllowed] at ha
   | cancelFut => simp [evAllowed] at ha
-  | callSoon r => simp [evAllowed] at ha
+  | callSoon r =>
+    have hq := quiet_inStep h ha
+    exact Or.inl (callSoon_inStep c d r hq)
 
 /-- **simulation over whole histories** -/
 theorem run_sim (P : Prog) : ∀ (evs : List Ev) (c d : Cfg), Sim P c d → InvP c → Inv c → admissible P c evs = true →
